@@ -2,11 +2,11 @@ package props
 
 import (
 	"bytes"
-	"math"
 	"crypto/rand"
 	"crypto/tls"
 	"encoding/base64"
 	"fmt"
+	"math"
 	mrand "math/rand/v2"
 	"os"
 	"path/filepath"
